@@ -224,6 +224,42 @@ class Ctx:
         return quick
 
 
+GEN_FILES = {
+    'numeric': ['ToolsReal.lean', 'ToolsFloat.lean', 'LaueReal.lean', 'LaueFloat.lean', 'DetectorReal.lean', 'DetectorFloat.lean',
+                'StructureReal.lean', 'StructureFloat.lean', 'ChecksReal.lean', 'ChecksFloat.lean', 'FloatDispatch.lean', 'numeric_meta.json'],
+    'hkl': ['Sysabs.lean', 'Segm.lean', 'hkl_meta.json'], 'guards': ['Guards.lean'], 'symmetry': ['Symmetry.lean'],
+    'pdbsym': ['PdbSymbols.lean'], 'c14': ['C14Ast.lean', 'c14_meta.json'], 'tables': ['Sg', 'Atomlib.lean', 'tables_meta.json'],
+    't51': ['T51', 't51_meta.json'], 't54': ['T54', 't54_meta.json'],
+}
+
+
+def restore_generated(g):
+    """copy the generator's output files saved by bin/setup (lean/.lake/gen_clean = generated from the reviewed tree) back into
+    XfabVerif/Gen; returns the number of files whose content had to be replaced"""
+    import shutil, filecmp
+    src = os.path.join(LEAN, '.lake', 'gen_clean')
+    dst = os.path.join(LEAN, 'XfabVerif', 'Gen')
+    n = 0
+    for rel in GEN_FILES.get(g, []):
+        a = os.path.join(src, rel)
+        if not os.path.exists(a):
+            continue
+        pairs = []
+        if os.path.isdir(a):
+            for root, _d, files in os.walk(a):
+                for f in files:
+                    pa = os.path.join(root, f)
+                    pairs.append((pa, os.path.join(dst, os.path.relpath(pa, src))))
+        else:
+            pairs.append((a, os.path.join(dst, rel)))
+        for pa, pb in pairs:
+            if not os.path.exists(pb) or not filecmp.cmp(pa, pb, shallow=False):
+                os.makedirs(os.path.dirname(pb), exist_ok=True)
+                shutil.copyfile(pa, pb)
+                n += 1
+    return n
+
+
 def load_known():
     p = os.path.join(VERIF, 'known_findings.json')
     if not os.path.exists(p):
@@ -289,12 +325,22 @@ def main():
 def run(pid, mod, tier, seed, t0):
     ctx = Ctx(pid, tier, seed)
     broken = []          # things that no longer check: dicts {kind, what, detail}
+    stale_models = []
     # 1. regenerate
     for g in getattr(mod, 'GEN', []):
         rc, out, dt = sh([sys.executable, os.path.join(HERE, 'gen_%s.py' % g)], timeout=1800)
         print(out.strip()[-400:])
         if rc == 3:
-            broken.append({'kind': 'translator-refused', 'what': 'gen_%s' % g, 'detail': out.strip()[-600:]})
+            # The translator cannot express the new source text (an unknown library call, a statement shape it does not know).
+            # The model it produced from the reviewed tree (saved by bin/setup) is then used as a model WRITTEN EARLIER, tied
+            # to the new code by the correspondence stream with the large budget -- the second of the two ties.  Only a
+            # disagreement or a failing input is an alarm; the refusal is recorded (evidence key `stale_models`).
+            restored = restore_generated(g)
+            stale_models.append({'generator': 'gen_%s' % g, 'reason': out.strip()[-400:], 'restored_files': restored})
+            ctx.boost = True
+            ctx.notes.append('gen_%s refused the current source; the model generated from the reviewed tree is used and tied by '
+                             'the boosted correspondence' % g)
+            print('gen_%s refused: using the model of the reviewed tree (%d files restored), boosted correspondence and search' % (g, restored))
         elif rc != 0:
             raise Infra('generator gen_%s failed:\n%s' % (g, out[-3000:]))
     # 1b. hand models are valid for the source text they were written against
@@ -477,6 +523,7 @@ def run(pid, mod, tier, seed, t0):
         'known_findings_reproduced': sorted(known_hit),
         'broken': broken,
         'pins_changed': pins_changed,
+        'stale_models': stale_models,
         'code_coverage': {'anchored_functions': cov['functions'], 'executable_lines': cov['lines'], 'executed': cov['covered'],
                           'not_executed': {q: v[:12] for q, v in list(cov['uncovered'].items())[:60]},
                           'new_unexercised': cov['new_unexercised'][:20], 'baseline_lines_not_reached_this_run': cov['lost'][:40],
